@@ -227,7 +227,8 @@ class Oracle:
         self.steps.append({"rid": rid, "dir": direction, "vstmts": [], "engine": engine_name})
         ctx = self.ctx_getter()
         self.tddl_seen = bool(ctx.impl.transactional_ddl)
-        self.steps[-1]["seen"] = [bool(ctx.impl.transactional_ddl), bool(ctx._transaction_per_migration)]
+        self.steps[-1]["seen"] = [bool(ctx.impl.transactional_ddl), bool(ctx._transaction_per_migration),
+                                  bool(ctx._in_external_transaction)]
         self.in_body = True
         shift = 2 * self.shift_for.get(engine_name, 0)
         try:
